@@ -180,7 +180,14 @@ class QActivation(Layer, PrunableLayer):
     return self.quantizer(inputs)
 
   def get_config(self):
-    config = {"activation": self.activation}
+    activation = self.activation
+    if (isinstance(activation, six.string_types) and
+        hasattr(self.quantizer, "get_config")):
+      # The string describes the quantizer as it was constructed; serialize
+      # the quantizer in use so that later changes to it (e.g. qnoise_factor
+      # and use_ste set by QNoiseScheduler) are kept, as the other layers do.
+      activation = self.quantizer
+    config = {"activation": activation}
     base_config = super(QActivation, self).get_config()
     return dict(list(base_config.items()) + list(config.items()))
 
